@@ -267,7 +267,12 @@ def run(tier):
     res.require(val_ok, 'C12:rx2_complete:backoff-value', 'back-off does not store next_lower_datarate(region, data_rate): %s' % term_str(v), short_site(rbf, bb, si),
                 'SAME-VALUE(back-off rate)', instance='back-off stores Some-payload of next_lower_datarate(region, configuration.data_rate)')
     g_adr = has_true(cs, fld(rconf, 'adr_enabled'))
-    g_ge = any(cond_true(x) and x[0][0] == 'Ge' and x[0][1] == cnt_t and is_const_cast(x[0][2], ADR_ACK_LIMIT + ADR_ACK_DELAY) for x in cs)
+    lim = ('const', ADR_ACK_LIMIT + ADR_ACK_DELAY)
+    # cnt >= 96 in any comparison form / polarity (cnt >= 96, !(cnt < 96), cnt > 95, ...)
+    g_ge = rules.implies_order(cs, '<=', lim, cnt_t)
+
+    def is_ge_limit(x):
+        return rules.implies_order([x], '<=', lim, cnt_t) and not rules.implies_order([x], '<=', ('const', lim[1] + 1), cnt_t)
     g_mul = False
     for x in cs:
         if cond_true(x) and x[0][0] == 'call' and x[0][1].endswith('is_multiple_of'):
@@ -278,7 +283,7 @@ def run(tier):
                 'back-off guard is not adr ∧ cnt >= 96 ∧ (cnt-64) %% 32 == 0 ∧ Some(lower): adr=%s ge=%s mul=%s some=%s' % (g_adr, g_ge, g_mul, g_some),
                 short_site(rbf, bb, si), 'SHAPE(back-off guard)', instance='back-off guard: adr_enabled ∧ cnt >= 96 ∧ (cnt-64) %% 32 == 0 ∧ lower rate exists')
     bo_allowed = [not_expired, adr_on,
-                  lambda x: cond_true(x) and x[0][0] == 'Ge' and x[0][1] == cnt_t,
+                  is_ge_limit,
                   lambda x: cond_true(x) and x[0][0] == 'call' and x[0][1].endswith('is_multiple_of'),
                   lambda x: x[0][0] == 'discr' and x[0][1][:2] == nl and x[1] in ((1,), ('not', (0,)))]
     extra = extra_conditions(cs, bo_allowed)
